@@ -6,7 +6,7 @@
 (* spans, raw span losses from LossSet raised to a 10 dB padding, operator settings per amplifier from UserKinds.  *)
 (*                                                                                                                *)
 (* Two uses: (B1) TLC checks every clause on every reachable design, including profiles with rounding ties, an     *)
-(* automatic VOA and a low extended maximum gain (Rich = TRUE); (B2) with Rich = FALSE every complete design is    *)
+(* automatic VOA, a low extended maximum gain and amplifier -> amplifier (Rich = TRUE); (B2) with Rich = FALSE every complete design is    *)
 (* emitted as one JSON line and replayed into the real designed_network - the grid then avoids ties (checked by    *)
 (* NoTieOnGrid) and both admissible reductions coincide, so the expectation is unique.                            *)
 EXTENDS DesignPower, Json, TLC
@@ -51,8 +51,9 @@ UserKinds == {
     U(11, cdB(1800), NONE, cdB(100), 0, FALSE) }              \* gain and VOA, auto-selected model
 
 AmpOf(raw, rawNext, last, u, rich) ==
-    [L |-> IF raw = 0 THEN 0 ELSE MaxI(raw, Pad), raw |-> raw,
-     Ln |-> IF last THEN 0 ELSE MaxI(rawNext, Pad), nxt |-> IF last THEN ROADM ELSE SPAN,
+    [L |-> IF raw = 0 THEN 0 ELSE MaxI(raw, Pad), raw |-> raw,              \* raw = 0: no span in front of the amplifier
+     Ln |-> IF last \/ rawNext = 0 THEN 0 ELSE MaxI(rawNext, Pad),
+     nxt |-> IF last THEN ROADM ELSE IF rawNext = 0 THEN AMP ELSE SPAN,
      inVoa |-> u.inVoa, uGain |-> u.g, uDp |-> u.dp, uVoa |-> u.voa, uVar |-> u.var, kind |-> u.id,
      pmax |-> PMax, flatx |-> IF rich = 2 /\ ~u.var THEN FlatLow ELSE FlatX, autoVoa |-> (rich = 1)]
 
@@ -70,6 +71,7 @@ MCProfiles ==
       \cup (IF Rich THEN ProfilesOf(1, MCLossesTie \cup {cdB(2000)}, 3)      \* rounding ties
                           \cup ProfilesOf(1, {cdB(2000), cdB(2770)}, 1)      \* automatic output VOA
                           \cup ProfilesOf(2, {cdB(2770)}, 2)                 \* low extended maximum gain
+                          \cup ProfilesOf(2, {0, cdB(2000)}, 4)              \* amplifier directly after an amplifier
                  ELSE {})
 
 MCVoaGrid == {cdB(50), cdB(150)}
